@@ -3,7 +3,8 @@ Model driver for C17. Line protocol (see harness/overlay/lib/crunchrun/zz_verif_
 
   copy <blocksize> <ctrOutHex> <host> <mounts> <secrets> <colls>
 
-Output: `ok <bytes put> <listing>` | `err <class>` | `skip-config` | `unmodelled` | `fuel`; when the
+Output: `ok <bytes put> <listing>` | `err <class>` | `skip-config` | `unmodelled` | `diverge` (the walk did not
+end within `fuelBound h cfg + 16` nested calls: proved sufficient for every supported configuration, C17_terminates); when the
 result depends on Go's map iteration order over the mounts, the distinct results of all orders are
 printed, separated by " | " (the harness checks membership).
 -/
@@ -110,13 +111,13 @@ def errName : Err → String
 
 /-- outcome before rendering: equal outcomes render equally -/
 def outcome (h : Host) (cfg : Cfg) : Res (Nat × Tree) :=
-  (scan h cfg 100000).bind fun p => (runPlan h p).bind fun t => .ok (putBytes h p, t)
+  (scan h cfg (fuelBound h cfg + 16)).bind fun p => (runPlan h p).bind fun t => .ok (putBytes h p, t)
 
 def render : Res (Nat × Tree) → String
   | .ok (n, t) => "ok " ++ toString n ++ " " ++ listing t
   | .err e => "err " ++ errName e
   | .unmodelled => "unmodelled"
-  | .fuel => "fuel"
+  | .fuel => "diverge"
 
 def perms {α : Type} : List α → List (List α)
   | [] => [[]]
@@ -133,7 +134,7 @@ def step (line : String) : String :=
       | some mounts =>
         let cfg : Cfg := { ctrOut := absComps ctrOut, hostOut := ["h1", "h2", "o"], mounts := mounts,
                            secrets := secrets.map absComps }
-        if ! supported cfg then "skip-config" else
+        if ! runnable cfg then "skip-config" else
         -- the driver creates R/h1/h2/o before the listed entries
         let host : Host := [(["h1"], .dir), (["h1", "h2"], .dir), (["h1", "h2", "o"], .dir)] ++ host
         let outs := ((if mounts.length ≤ 5 then perms mounts else [mounts]).map fun m =>
